@@ -23,7 +23,9 @@ META = {
     "and no schedule hypothesis; object_independent_of_split_every.  Composition C05 o C06 o C18 "
     "(Props/C06Cog.lean::cog_file_end_to_end): tile stream in C05's writeOrder, any cutting into bags/partitions, "
     "mpu_write, MPUFileSink: file = header ++ tiles and every patched header entry addresses its tile's bytes on disk "
-    "(real mpu_write -> real MPUFileSink runs are checked byte for byte).  Public MPUChunk methods driven directly "
+    "(real mpu_write -> real MPUFileSink runs are checked byte for byte); S3 variant cog_s3_end_to_end (Props/C06CogS3.lean, over "
+    "C18's upload model: one multipart upload, no failing call, the completed OBJECT = header ++ tiles with every patched entry "
+    "addressing its tile; common part cog_header_addresses_assembled_parts).  Public MPUChunk methods driven directly "
     "(Model/C06Ops.lean): flush with every keyword form (leftPartId None / given, finalise True / False, return value, "
     "state of the chunk before and after; flush(finalise=False) + write.finalise(chunk.parts) evaluated with the "
     "statement), maybe_write / flush_rhs return values and post-states, what a merge task leaves in its INPUT objects "
@@ -41,14 +43,22 @@ META = {
     "spilled or the right side had written, the second execution writes the same part number again with other bytes, "
     "re-sends left data under a fresh number, or fails its assertion) - the model of the input post-states is compared "
     "with the real objects on every run (soft tie: recorded, never a violation, because working on defensive copies "
-    "would be just as good); the partition task (_mpu_append_chunks_op) copies its section and is repeatable "
-    "(recompute-differs oracle), the finaliser appends the footer to its input and is not (not modelled).  Pickled "
+    "would be just as good); general statements: merge_not_repeatable_after_spill (right side unstarted and the task wrote: "
+    "no second execution reproduces the first), merge_not_repeatable_after_flush (right side started and the left input "
+    "flushed: the second execution fails or uses the next part number); the partition task (_mpu_append_chunks_op) copies its "
+    "section and is repeatable (recompute-differs oracle); the finaliser is modelled too (finalizerPost / finalizerTwice: a "
+    "non-empty footer is appended to the root itself -> finalizer_twice_footer_cex, the footer goes out twice; without header "
+    "and footer the root is flushed in place and a second execution completes the upload again with the same list: "
+    "finalizer_twice_plain; soft tie on 300 / 1500 real roots per run).  Pickled "
     "transport (process / distributed schedulers ship copies) is covered by the transport streams.  WRITER UPPER "
     "LIMITS: max_part - under main's capacity hypothesis every part number is within [min_part, max_part] "
     "(main) and there are at most max_part - min_part + 1 parts (parts_count_and_largest_part); without it only flush_rhs "
     "asserts the range, maybe_write does not: a run can END WITHOUT ERROR with part numbers above max_part "
     "(max_part_unchecked_cex, replayed each run; finding part-number-above-max-part-unchecked, outside main's "
-    "capacity hypothesis; proposed repair: the range assertion of flush_rhs also in maybe_write); max_write_sz is never read: a chunk is never "
+    "capacity hypothesis; repaired on branch fix3-C06: the range assertion of flush_rhs also in maybe_write - the model follows "
+    "the tree under test by a behavioural probe (repaired_mode): Model/C06Fix.lean maybeWriteR/evalR/runR/mpuWriteR with "
+    "maybeWriteR_eq (inside the capacity the repair changes nothing), main_repaired (all of C06 for the repaired code), "
+    "maybeWriteR_in_range, mpu_write_repaired_eq, max_part_repaired_cex (the witness now fails loudly); driver ops runR / mpuwR); max_write_sz is never read: a chunk is never "
     "split and a partition that has run out of write credits is flushed as one part (max_write_sz_not_enforced_cex, "
     "replayed each run); what IS guaranteed is the lower bound on every part but the last.  user_kw reaches both "
     "callbacks unchanged (oracle user-kw-not-passed-through on the real mpu_write -> MPUFileSink runs).  Buffer "
@@ -193,6 +203,31 @@ def priv_ops(M):
     return ops if all(callable(v) for v in ops.values()) else None
 
 
+_REPAIRED = {}
+
+
+def repaired_mode() -> bool:
+    """which `maybe_write` does the tree under test have?  Behavioural probe (the witness of finding
+    part-number-above-max-part-unchecked, through public MPUChunk methods only): as found the second spill hands the writer a
+    part number above max_part; as repaired on branch fix3-C06 it raises AssertionError.  The model follows: `run` / `mpuw`
+    (Model/C06.lean) or `runR` / `mpuwR` (Model/C06Fix.lean: main_repaired, max_part_repaired_cex)."""
+    if "v" not in _REPAIRED:
+        from odc.geo.cog import _mpu as M
+        w = RecWriter(2, 1, 2)
+        c = M.MPUChunk(2, 3, lhs_keep=2)
+        try:
+            c.append(payload(0, 8), 0)
+            c.maybe_write(w, 2)          # part 2: allowed
+            c.append(payload(8, 8), 1)
+            c.maybe_write(w, 2)          # part 3: above max_part = 2
+            _REPAIRED["v"] = False
+        except AssertionError:
+            _REPAIRED["v"] = True
+        except Exception:  # pylint: disable=broad-except
+            _REPAIRED["v"] = False
+    return _REPAIRED["v"]
+
+
 def fallback_mode() -> bool:
     from odc.geo.cog import _mpu as M
     return priv_ops(M) is None
@@ -298,7 +333,7 @@ def enc_bags(subs) -> str:
 
 def mpuw_line(cfg, subs) -> str:
     has_w, min_write, min_part, max_part, spill, wpc, hdr, ftr = cfg
-    return (f"c06 mpuw {bool_s(has_w)} {min_write} {min_part} {max_part} {spill} {wpc} {opt_s(hdr)} {opt_s(ftr)} "
+    return (f"c06 {'mpuwR' if repaired_mode() else 'mpuw'} {bool_s(has_w)} {min_write} {min_part} {max_part} {spill} {wpc} {opt_s(hdr)} {opt_s(ftr)} "
             f"{enc_bags(subs)}")
 
 
@@ -341,7 +376,7 @@ class Case:
         self.spill, self.wpc, self.hdr, self.ftr, self.tree = spill, wpc, hdr, ftr, tree
 
     def line(self):
-        return (f"c06 run {bool_s(self.has_w)} {self.min_write} {self.min_part} {self.max_part} {self.spill} "
+        return (f"c06 {'runR' if repaired_mode() else 'run'} {bool_s(self.has_w)} {self.min_write} {self.min_part} {self.max_part} {self.spill} "
                 f"{self.wpc} {opt_s(self.hdr)} {opt_s(self.ftr)} {enc_tree(self.tree)}")
 
     def as_dict(self):
@@ -370,7 +405,7 @@ class Case:
 
 def parse_case(line: str) -> Case:
     t = line.split(" ")
-    assert t[0] == "c06" and t[1] == "run"
+    assert t[0] == "c06" and t[1] in ("run", "runR")
     toks = t[10].split(";")
 
     def go(i):
@@ -716,7 +751,46 @@ def rerun_case(R, min_write, min_part, max_part, spill, wpc, mark_final, tree_l,
     return hard
 
 
-def rerun_soft_check(R, soft):
+def fintwice_case(R, min_write, min_part, max_part, spill, wpc, hdr, ftr, tree, soft):
+    """the finaliser task executed twice on the same root object (Model/C06Ops.lean: finalizerPost / finalizerTwice).
+    SOFT like the merge re-execution: what a task leaves in its input is internal to the code - differences are recorded in
+    the evidence, never a violation."""
+    from odc.geo.cog import _mpu as M
+    ops = priv_ops(M)
+    if ops is None:
+        return
+    line = f"c06 fintwice {min_write} {min_part} {max_part} {spill} {wpc} {opt_s(hdr)} {opt_s(ftr)} {enc_tree(tree)}"
+
+    def f():
+        w = RecWriterD(min_write, min_part, max_part)
+        try:
+            root = real_eval_tree(M, w, tree, spill, wpc, ftr is None, len(tree_leaves(tree)), {"idx": 0, "off": 0, "cid": 0})
+        except Exception as e:  # pylint: disable=broad-except
+            return "EVAL-" + err_s(e)
+
+        def once():
+            n0 = len(w.calls)
+            w.final = None
+            ops["_finalizer_dask_op"](root, write=w,
+                                      mk_header=None if hdr is None else (lambda obs: hdr_bytes(hdr)),
+                                      mk_footer=None if ftr is None else (lambda obs: ftr_bytes(ftr)))
+            made = "[" + ",".join(f"{p}:{d.hex()}" for p, d in w.calls[n0:]) + "]"
+            return f"writes={made} final={list_s(w.final)} root[{fmt_chunk_real(root)}]"
+
+        try:
+            first = once()
+        except Exception as e:  # pylint: disable=broad-except
+            return "FIRST-" + err_s(e)
+        try:
+            second = once()
+        except Exception as e:  # pylint: disable=broad-except
+            second = err_s(e)
+        return f"first: {first} second: {second}"
+
+    soft.append((line, guarded(f)))
+
+
+def rerun_soft_check(R, soft, what="reexecution_model"):
     """informational tie of the re-execution model: model lines through the driver here, differences counted"""
     from .common import lean_build, run_driver
     if not soft:
@@ -730,11 +804,11 @@ def rerun_soft_check(R, soft):
         R.notes.append("re-execution model (mergeTwice): driver not available, input post-states not compared")
         return
     diff = [(l, real, m) for (l, real), m in zip(soft, outs) if real != m]
-    R.extra["reexecution_model_cases"] = len(soft)
-    R.extra["reexecution_model_differences"] = len(diff)
-    R.count("rerun-soft:agree", len(soft) - len(diff))
+    R.extra[what + "_cases"] = len(soft)
+    R.extra[what + "_differences"] = len(diff)
+    R.count(what + "-soft:agree", len(soft) - len(diff))
     if diff:
-        R.count("rerun-soft:differ", len(diff))
+        R.count(what + "-soft:differ", len(diff))
         R.notes.append(f"re-execution model (Model/C06Ops.lean mergeTwice): {len(diff)} of {len(soft)} cases differ in what the "
                        "merge task leaves in its INPUT objects / does when executed again (internal to the code, not a "
                        f"violation; the task's result and writer calls are compared as `rerun1`); first: {diff[0][0]}")
@@ -1402,6 +1476,8 @@ def run(R: Run):
         R.extra["stage_s"] = dict(_stages)
 
     FB = fallback_mode()
+    R.extra["maybe_write_asserts_part_range"] = repaired_mode()
+    R.count("tree:maybe_write-" + ("repaired(fix3-C06)" if repaired_mode() else "as-found"))
     if FB:
         R.notes.append("odc.geo.cog._mpu no longer has (all of) the private operators " + ", ".join(PRIV_OPS) + ": nothing "
                        "is called or patched by private name; direct drive along arbitrary merge trees and the re-execution "
@@ -1522,6 +1598,17 @@ def run(R: Run):
                    rng.choice([0, 1, min_write, 2 * min_write, 1000]), wpc, rng.random() < 0.5,
                    random_tree(rng, ll), random_tree(rng, lr), soft_rerun)
     rerun_soft_check(R, soft_rerun)
+    soft_fin = []
+    for _ in range(0 if FB else R.pick(300, 1500)):
+        min_write = rng.choice([10, 4, 1])
+        leaves = [[rng.choice([0, 1, min_write, 2 * min_write, 3 * min_write + 1]) for _ in range(rng.choice([1, 2]))]
+                  for _ in range(rng.choice([1, 1, 2, 3]))]
+        mp = rng.choice([0, 1, 5])
+        wpc = rng.choice([1, 2])
+        fintwice_case(R, min_write, mp, mp + len(leaves) * wpc + 3, rng.choice([0, 1, min_write, 2 * min_write]), wpc,
+                      rng.choice([None, 0, 3, 2 * min_write]), rng.choice([None, None, 0, 2, min_write + 1]),
+                      random_tree(rng, leaves), soft_fin)
+    rerun_soft_check(R, soft_fin, "finaliser_reexecution_model")
     for _ in range(R.pick(1500, 6000)):
         min_write = rng.choice([10, 4, 2])
         leaves = [[rng.choice([0, 1, min_write // 2, min_write, 2 * min_write, 3 * min_write + 1, 5 * min_write])
@@ -1555,7 +1642,7 @@ def run(R: Run):
     token_lhs_keep(R)
     # no bag at all: mpu_write([]) fails while the graph is built
     from odc.geo.cog import _mpu as M0
-    R.corr("c06 mpuw T 10 1 100 20 1 N N -", lambda: str(M0.mpu_write([], RecWriter(10, 1, 100)).compute(scheduler="synchronous")),
+    R.corr(f"c06 {'mpuwR' if repaired_mode() else 'mpuw'} T 10 1 100 20 1 N N -", lambda: str(M0.mpu_write([], RecWriter(10, 1, 100)).compute(scheduler="synchronous")),
            sig="mpuw|no-bags")
     mark("dask")
     # ---------------- real dask graphs (mpu_write / from_dask_bag / fold / collate / finaliser)
@@ -1753,7 +1840,7 @@ def replay(R: Run, rec) -> int:
         for f in R.oracle_failures[before:]:
             print("FAILS:", f["key"], f["what"])
         return 1 if len(R.oracle_failures) > before else 0
-    if line.startswith("c06 mpuw "):
+    if line.startswith("c06 mpuw ") or line.startswith("c06 mpuwR "):
         t = line.split(" ")
         o = lambda x: None if x == "N" else int(x)
         cfg = (t[2] == "T", int(t[3]), int(t[4]), int(t[5]), int(t[6]), int(t[7]), o(t[8]), o(t[9]))
